@@ -62,6 +62,12 @@ Proof. induction a; intros; cbn; [lia|]. rewrite IHa. lia. Qed.
 Lemma hold_s_app : forall m a b, hold_s m (a ++ b) = hold_s m a + hold_s m b.
 Proof. induction a; intros; cbn; [lia|]. rewrite IHa. lia. Qed.
 
+(* the steps use [movable] for move-construction, move-assignment and swap: it is the [offered] table *)
+Lemma movable_offered : forall k,
+  movable k = offers k XMoveCons /\ movable k = offers k XMoveAssign /\ movable k = offers k XSwap /\
+  offers k XCopyCons = false /\ offers k XCopyAssign = false.
+Proof. intros []; repeat split; reflexivity. Qed.
+
 (* ------------------------------------------------------------------ single guards *)
 
 (* what a guard object contributes to the counts *)
